@@ -16,6 +16,7 @@ package main
 // are logged again after the call.
 
 import (
+	"bytes"
 	"encoding/json"
 	"flag"
 	"fmt"
@@ -66,6 +67,39 @@ func c13Copy(b []byte) []byte {
 	return append([]byte{}, b...)
 }
 
+// c13Views hands msg and dst to the library as two views into ONE buffer, dst first (spare capacity reaching over msg),
+// followed by sentinel bytes: code that appends to an argument writes into its neighbour. after() returns what the caller's
+// memory holds afterwards; damage behind msg is reported as extra bytes of msg (the spec demands msgafter = msg).
+func c13Views(msg, dst []byte) (m, d []byte, after func() ([]byte, []byte)) {
+	buf := make([]byte, 0, len(dst)+len(msg)+16)
+	buf = append(buf, dst...)
+	buf = append(buf, msg...)
+	for i := 0; i < 16; i++ {
+		buf = append(buf, byte(0xC3^i))
+	}
+	shadow := append([]byte{}, buf...)
+	if dst != nil {
+		d = buf[0:len(dst)]
+	}
+	if msg != nil {
+		m = buf[len(dst) : len(dst)+len(msg)]
+	}
+	after = func() ([]byte, []byte) {
+		ma, da := append([]byte{}, buf[len(dst):len(dst)+len(msg)]...), append([]byte{}, buf[:len(dst)]...)
+		if msg == nil {
+			ma = nil
+		}
+		if dst == nil {
+			da = nil
+		}
+		if !bytes.Equal(buf[len(dst)+len(msg):], shadow[len(dst)+len(msg):]) {
+			ma = append(ma, buf[len(dst)+len(msg):]...)
+		}
+		return ma, da
+	}
+	return
+}
+
 func c13Err(v reflect.Value) (string, bool) {
 	if v.IsNil() {
 		return "", false
@@ -77,7 +111,7 @@ func c13Err(v reflect.Value) (string, bool) {
 // expand_message_xmd and Hash
 
 func c13XmdEvent(t *TraceWriter, msg, dst []byte, n int) {
-	m, d := c13Copy(msg), c13Copy(dst)
+	m, d, after := c13Views(msg, dst)
 	e := Ev{"op": "ExpandMsgXmd", "msg": bytesToInts(msg), "dst": bytesToInts(dst), "len": n}
 	out, pm, pk := call(reflect.ValueOf(fhash.ExpandMsgXmd), reflect.ValueOf(m), reflect.ValueOf(d), reflect.ValueOf(n))
 	if pk {
@@ -88,14 +122,15 @@ func c13XmdEvent(t *TraceWriter, msg, dst []byte, n int) {
 		} else {
 			e["out"] = bytesToInts(out[0].Bytes())
 		}
-		e["msgafter"] = bytesToInts(m)
-		e["dstafter"] = bytesToInts(d)
+		ma, da := after()
+		e["msgafter"] = bytesToInts(ma)
+		e["dstafter"] = bytesToInts(da)
 	}
 	t.Emit(e)
 }
 
 func c13HashEvent(t *TraceWriter, f *Field, msg, dst []byte, count int) {
-	m, d := c13Copy(msg), c13Copy(dst)
+	m, d, after := c13Views(msg, dst)
 	e := Ev{"op": "Hash", "msg": bytesToInts(msg), "dst": bytesToInts(dst), "count": count}
 	out, pm, pk := call(f.Funcs["Hash"], reflect.ValueOf(m), reflect.ValueOf(d), reflect.ValueOf(count))
 	if pk {
@@ -110,8 +145,9 @@ func c13HashEvent(t *TraceWriter, f *Field, msg, dst []byte, count int) {
 			}
 			e["out"] = raws
 		}
-		e["msgafter"] = bytesToInts(m)
-		e["dstafter"] = bytesToInts(d)
+		ma, da := after()
+		e["msgafter"] = bytesToInts(ma)
+		e["dstafter"] = bytesToInts(da)
 	}
 	t.Emit(e)
 }
@@ -395,7 +431,7 @@ func (x *c13Group) msgEvent(op string, fn reflect.Value, msg, dst []byte) {
 		return
 	}
 	e := Ev{"op": op, "msg": bytesToInts(msg), "dst": bytesToInts(dst)}
-	m, d := c13Copy(msg), c13Copy(dst)
+	m, d, after := c13Views(msg, dst)
 	out, pm, pk := call(fn, reflect.ValueOf(m), reflect.ValueOf(d))
 	if pk {
 		e["panic"] = pm
@@ -413,8 +449,9 @@ func (x *c13Group) msgEvent(op string, fn reflect.Value, msg, dst []byte) {
 				e["out2"] = enc(out2[0])
 			}
 		}
-		e["msgafter"] = bytesToInts(m)
-		e["dstafter"] = bytesToInts(d)
+		ma, da := after()
+		e["msgafter"] = bytesToInts(ma)
+		e["dstafter"] = bytesToInts(da)
 	}
 	x.t.Emit(e)
 }
